@@ -51,7 +51,7 @@ func c05(p *core.Prog, r *core.Report) {
 	// the reader dispatches a frame only if both reads of the iteration
 	// succeeded, and every read error ends the loop through the error handler
 	// (shared with C03-R3)
-	r.Rule("C05-R6", "E6 guards/paths", 4, "only completely read frames are dispatched; every read error fails the connection")
+	r.Rule("C05-R6", "E6 guards/paths", 2, "only completely read frames are dispatched; every read error fails the connection")
 	c03ReaderLoop(p, r, "C05-R6")
 	r.Rule("C05-R5", "E6 provenance", 1, "a retried call's outcome carries nothing of a failed attempt (shared with C18)")
 	r.Alias("C18-R4", "C05-R5")
